@@ -39,6 +39,23 @@ class Stuck(BaseException):
     """the client reads but nothing will ever arrive (harness/model inconsistency)"""
 
 
+LINGER = 30.0      # config.ITER_STREAM_LINGER while the rig is alive (virtual seconds)
+
+
+class Clock:
+    """stands for the `time` module inside Pyro5.server: time() is virtual, everything else is the real module"""
+
+    def __init__(self, real):
+        self._real = real
+        self.now = 1000.0
+
+    def time(self):
+        return self.now
+
+    def __getattr__(self, name):
+        return getattr(self._real, name)
+
+
 class SrvSock:
     """server side of one in-memory connection"""
     family = socket.AF_INET
@@ -139,6 +156,7 @@ class ClientSock:
 
     def close(self):
         self.closed = True
+        self.net.rig.disconnected(self)
 
     def fileno(self):
         return 3000 + self.idx
@@ -246,6 +264,7 @@ class Net:
             self.sends += 1
         if ev[0] == "rb":
             sock.dead = True
+            self.rig.disconnected(sock)
             if invoke:
                 self.hist.append(None)
             raise ConnectionResetError(errno.ECONNRESET, "scripted reset before delivery")
@@ -296,6 +315,7 @@ class Net:
         elif k in ("cu", "ra"):
             sock.pending = "closed"
             sock.dead = True
+            self.rig.disconnected(sock)
             cut = (len(reply) * ev[1] // 1000) if k == "cu" else 0
             if reply and cut:
                 now.append(Chunk(reply[:cut], meta, complete=False))
@@ -314,6 +334,10 @@ class Rig:
         self.socketutil, self.errors, self.core = socketutil, errors, core
         self.saved = (config.SERVERTYPE, config.MAX_RETRIES, config.COMMTIMEOUT, config.SERIALIZER, config.ITER_STREAMING,
                       config.LOGWIRE, config.COMPRESSION, socketutil.create_socket, server._OnewayCallThread)
+        self.saved2 = (config.ITER_STREAM_LINGER, config.ITER_STREAM_LIFETIME, server.time)
+        config.ITER_STREAM_LINGER = LINGER       # a stream survives the loss of its connection for LINGER virtual seconds
+        config.ITER_STREAM_LIFETIME = 0.0
+        self.clock = server.time = Clock(self.saved2[2])
         config.SERVERTYPE = "multiplex"
         config.COMMTIMEOUT = 0.0
         config.SERIALIZER = "serpent"
@@ -383,6 +407,19 @@ class Rig:
         self.net = None
         socketutil.create_socket = lambda *a, **kw: rig.net.create_socket(*a, **kw)
 
+    def disconnected(self, sock):
+        """the daemon's transport notices that a connection is gone (svr_multiplex.py:88 / svr_threads.py:61)"""
+        if not getattr(sock, "disconnect_seen", False):
+            sock.disconnect_seen = True
+            self.daemon._clientDisconnect(sock.srvconn)
+
+    def after_fetch(self):
+        """virtual time: more than the linger period passes right after a stream fetch was answered (the stream is
+        attached to a live connection then), and the daemon's periodic housekeeping runs.  Streams that are waiting for
+        their client to come back never age, so the unchanged daemon never expires one in these histories."""
+        self.clock.now += 2 * LINGER
+        self.daemon._housekeeping()
+
     def serve(self, net, sock, msg, invoke):
         """the daemon handles one message on the server side of `sock`; returns the bytes it sent back"""
         srv = sock.srv
@@ -413,6 +450,7 @@ class Rig:
             (config.SERVERTYPE, config.MAX_RETRIES, config.COMMTIMEOUT, config.SERIALIZER, config.ITER_STREAMING,
              config.LOGWIRE, config.COMPRESSION, socketutil.create_socket, server._OnewayCallThread) = self.saved
             server._OnewayCallThread.start = self.orig_oneway_start
+            config.ITER_STREAM_LINGER, config.ITER_STREAM_LIFETIME, server.time = self.saved2
             shutil.rmtree(self.tmp, ignore_errors=True)
 
     # ---------------------------------------------------------------------------------------------
@@ -439,7 +477,7 @@ class Rig:
             while True:
                 t._hit((t.cur, 0))
                 yield ["item", t.cur]
-        self.daemon.streaming_responses[sid] = (None, time.time(), 0, feed())
+        self.daemon.streaming_responses[sid] = (None, self.clock.now, 0, feed())
         fetcher = client._StreamResultIterator(sid, proxy)
         recs = []
         try:
@@ -453,10 +491,13 @@ class Rig:
                 own_before = sum(t.log[k] for k in own_keys)
                 total_before = t.nlog
                 pos0 = net.pos
+                upcoming = list(net.script[pos0:pos0 + 2])
                 value = exc = None
                 try:
                     value = self._do(proxy, fetcher, kind, tok)
                     tag = "returned"
+                    if kind == "f":
+                        self.after_fetch()
                 except ScriptEnd:
                     tag = "end"
                 except Stuck:
@@ -485,7 +526,7 @@ class Rig:
                 rec = {"idx": idx, "kind": kind, "tok": tok, "tag": tag, "value": value, "exc": exc,
                        "delta": t.log[(tok, 0)] - before, "state": state, "seq": proxy._pyroSeq,
                        "connects": net.connects, "consumed": net.pos - pos0, "unread": unread,
-                       "events": list(book["events"]), "processed": book["processed"],
+                       "events": list(book["events"]), "processed": book["processed"], "upcoming": upcoming,
                        "msgs": list(book["consumed"]), "sends": net.sends,
                        "foreign_execs": (t.nlog - total_before) - (sum(t.log[k] for k in own_keys) - own_before),
                        "subcounts": sorted(set(t.log[(tok, i)] for i in range(BATCH)) if kind in "bB" else [])}
